@@ -62,6 +62,7 @@ fn rerun(w: &Value) -> Option<Outcome> {
         "c12_header" => Some(c12::run_header(w["input"]["text"].as_str()?)),
         "c12_header_deep" => Some(c12::run_header_deep(w["input"]["nested"].as_u64()? as usize)),
         "c12_yacc" => Some(c12::run_yacc(w["input"]["text"].as_str()?)),
+        "c12_span" => Some(c12::run_span(w["input"]["start"].as_u64()? as usize, w["input"]["end"].as_u64()? as usize)),
         "c12_dupocc" => Some(c12::run_dupocc(w["input"]["which"].as_str()?, &w["input"]["pattern"].as_array()?.iter().filter_map(|x| x.as_u64().map(|y| y as usize)).collect::<Vec<_>>())),
         "c12_lex" => Some(c12::run_lex(w["input"]["text"].as_str()?)),
         "c09_ids" => Some(c09::run(w["input"]["spec"].as_str()?, &w["input"]["map"].as_array()?.iter().map(|x| (x[0].as_str().unwrap_or("").to_string(), x[1].as_u64().unwrap_or(0) as u32)).collect::<Vec<_>>())),
@@ -121,6 +122,7 @@ fn search(unit: &str, tag: &str, tier: &str) -> Option<Value> {
         "c07_lr" | "c04_next" => c07::search(tag, tier),
         "c06_moves" | "c06_dijkstra" | "c06_cpct" | "c06_rank" | "c05_apply" | "c05_cactus" | "c05_traverse" => if tag.starts_with("C07") { c07::search(tag, tier).or_else(|| c06::search(tag, tier)) } else { c06::search(tag, tier).or_else(|| c07::search(tag, tier)) },
         "c12_header" => c12::search(tag, tier),
+        "c12_span" => c12::search_span(),
         "c12_dupocc" => c12::search_dupocc(tag, tier).or_else(|| c11::search(tag, tier)),
         "c12_flags" if tag.starts_with("C11") => c11::search(tag, tier),
         "c12_lex" | "c12_flags" | "c12_unescape" | "c12_lexdef" => c12::search_lex(tier),
